@@ -11,4 +11,4 @@ def run(chk):
     lo = lambda links: (links.split("] [")[0] + "]") if "] [" in links else links
     return run_loop_check(chk, lambda n, links, t: f"andb (check_C04 {links} {t}) (check_C04_terminal_first {lo(links)} {t})", "mixed",
                           "supervision event missing, duplicated, misclassified or sent to a stranger",
-                          complete_fn=lambda links, t: f"andb (check_C04_complete {links} {t}) (check_C04_join (List.length {links}) {t})")
+                          complete_fn=lambda links, t: f"andb (check_C04_complete {links} {t}) (andb (check_C04_join (List.length {links}) {t}) (check_C04_join_cancel (List.length {links}) {t}))")
